@@ -113,6 +113,12 @@ func VerifC09FullSync(h *verifh.H) {
 			m.write(ent, tag)
 		case 0: // HTTP start with a batch
 			id := ids[h.Choice("sid", 2)]
+			if h.Param("symIds", 0) == 1 {
+				// the sync id is any two bytes over {x,y,X}: whether two ids are the same id is the
+				// solver's decision, so an id that only resembles the active one (other case, common
+				// prefix) is a foreign id
+				id = h.StrOver("sidv", 2, "xyX")
+			}
 			ent := pool[1+h.Choice("ent", 2)]
 			ok := vHTTPEntities(ds, true, id, false, mk(ent, tag))
 			h.Assert(ok, "a start request is accepted :: "+when)
@@ -123,6 +129,9 @@ func VerifC09FullSync(h *verifh.H) {
 			}
 		case 1, 2: // HTTP batch (1) or HTTP end (2)
 			reqID := []string{"", "x", "y"}[h.Choice("rid", 3)]
+			if h.Param("symIds", 0) == 1 && reqID != "" {
+				reqID = h.StrOver("ridv", 2, "xyX")
+			}
 			ent := pool[1+h.Choice("ent", 2)]
 			end := op == 2
 			ok := vHTTPEntities(ds, false, reqID, end, mk(ent, tag))
